@@ -2,7 +2,7 @@
    Nothing but statements, `exact`, Print Assumptions (+ examples). *)
 From Coq Require Import List Bool Arith NArith.
 From FwdLib Require Import Bytes.
-From G12 Require Import Tables Expected Errors Exchange Framing Check ErrorsProofs ExchangeProofs FramingProofs Indexing Obligations.
+From G12 Require Import Tables Expected Errors Exchange Framing Check ErrorsProofs ExchangeProofs FramingProofs Indexing Dial Obligations.
 Import ListNotations.
 Local Open Scope N_scope.
 
@@ -165,6 +165,27 @@ Proof.
         (conj ix_label_arity (conj ob_ta_all_others_two_valued (conj ob_index_sites ob_type_assert_sites))))))).
 Qed.
 Print Assumptions T12_index_obligations.
+
+(* The dialer's retry loop (shape flags from the source of this run): whatever the outcomes of the attempts, whatever
+   the configured number of attempts, and whether or not the caller's context ended while an attempt was pending,
+   DialContext never gets "no connection, no error" and so never wraps (dereferences) a nil connection; it gets a
+   connection exactly when some attempt succeeded. *)
+Theorem T12_dial_never_wraps_nil : forall n (results : nat -> att),
+  let l := map results (seq 0 (attempts_of dial_attempts_at_least_one n)) in
+  wraps_nil (dial_loop dial_records_error_before_leaving_loop l false) = false /\
+  fst (dial_loop dial_records_error_before_leaving_loop l false) = existsb (fun a => match a with AOk => true | _ => false end) l.
+Proof.
+  intros n results. rewrite ob_dial_records_error_before_leaving_loop, ob_dial_attempts_at_least_one. cbv zeta.
+  split; [apply dial_context_never_wraps_nil|apply dial_returns_conn_iff].
+Qed.
+Print Assumptions T12_dial_never_wraps_nil.
+(* ... kept visible: a loop that can be left before the error is recorded (context ended during the attempt), or
+   without the floor on the number of attempts, does return (nil, nil). *)
+Theorem T12_dial_never_wraps_nil_refuted_for_other_shapes :
+  wraps_nil (dial_loop false [AFail true] false) = true /\
+  (forall results, wraps_nil (dial_loop true (map results (seq 0 (attempts_of false 0))) false) = true).
+Proof. exact (conj dial_break_before_record_wraps_nil dial_zero_attempts_wraps_nil). Qed.
+Print Assumptions T12_dial_never_wraps_nil_refuted_for_other_shapes.
 
 (* Non-vacuity: a concrete response in each framing meets the hypotheses. *)
 Example T12_example :
